@@ -266,6 +266,12 @@ fn apply_bump<'b>(bump: &'b Bump, st: &mut Option<BString<'b>>, op: &Op, calls: 
             }
             txt
         }),
+        Op::CloneFrom(t) => guard(|| {
+            // `clone_from` of another string living in the same arena
+            let src = BString::from_str_in(t, bump);
+            st.as_mut().unwrap().clone_from(&src);
+            "unit".into()
+        }),
         Op::CloneS { swap } => guard(|| {
             let c = st.as_ref().unwrap().clone();
             let txt = format!("clone={}", hexs(c.as_bytes()));
@@ -357,6 +363,11 @@ fn apply_std(st: &mut Option<String>, op: &Op, calls: &Cell<usize>, seen: &RefCe
                 *st = Some(o);
             }
             txt
+        }),
+        Op::CloneFrom(t) => guard(|| {
+            let src: String = t.clone();
+            st.as_mut().unwrap().clone_from(&src);
+            "unit".into()
         }),
         Op::CloneS { swap } => guard(|| {
             let c = st.as_ref().unwrap().clone();
